@@ -5,7 +5,7 @@ import base64
 import typing
 
 from .. import scen, vrt
-from ..chx.api import P, harness, ladder, pick, shard
+from ..chx.api import P, concrete, harness, ladder, pick, shard
 from ..vnet.core import FakeSSLContext, Net, Peer, Sock
 from ..vnet.servers import AutoOrigin, H1Server, ProxyServer, Resp, SocksServer
 
@@ -79,6 +79,12 @@ def http_proxy_hop(auth: bool, ph: int, rq: int, secure: bool, port: int, st: in
     is_secure = bool(secure)
     other_port = ladder(port, 0, 1) == 1
     status = pick(st, CONNECT_STATUS) if is_secure else 200
+    with concrete(use_auth, is_secure, other_port, status, method):
+        _http_proxy_hop(is_async, px, pheaders, method, rheaders, body, use_auth, is_secure, other_port, status)
+
+
+def _http_proxy_hop(is_async: bool, px: str, pheaders: list, method: str, rheaders: list, body: typing.Any,
+                    use_auth: bool, is_secure: bool, other_port: bool, status: int) -> None:
     vrt.new_runtime(clock=7)
 
     origins: list[AutoOrigin] = []
@@ -217,6 +223,12 @@ def socks_hop(auth: bool, mr: int, ar: int, rc: int, secure: bool, hostkind: int
     code = ladder(rc, 0, 8)
     is_secure = bool(secure)
     host = "o.test" if ladder(hostkind, 0, 1) == 0 else "10.1.2.3"
+    with concrete(use_auth, method_reply, auth_reply, code, is_secure, host):
+        _socks_hop(is_async, use_auth, method_reply, auth_reply, code, is_secure, host)
+
+
+def _socks_hop(is_async: bool, use_auth: bool, method_reply: bytes, auth_reply: bytes, code: int,
+               is_secure: bool, host: str) -> None:
     vrt.new_runtime(clock=7)
     servers: list[SocksServer] = []
     origins: list[AutoOrigin] = []
